@@ -38,14 +38,14 @@ LEVEL_TEXT = (
     "any alpha), LinearizedADMM, ProximalADMM (general B, c and defaults), NonLinearPADMM, PDHG (linear / non-linear C), PGM, "
     "AcceleratedPGM; KKT points minimise f + g∘C; one PGM step with L >= Lipschitz constant does not increase the distance to "
     "any minimiser and decreases the objective; linear rate and convergence from every start for strongly convex f (all "
-    "iteration counts); FISTA t_k >= t_0 + k/2; ADMM Lyapunov function decreases along the documented iteration for one "
-    "constraint, alpha = 1 (all trajectories). Tie: fixed-point residuals at manufactured exact optima and monotone "
+    "iteration counts); FISTA t_k >= t_0 + k/2; ADMM Lyapunov function decreases along the documented iteration for N "
+    "constraints, alpha = 1 (all trajectories). Tie: fixed-point residuals at manufactured exact optima and monotone "
     "quantities along trajectories of the real classes."
 )
 LEVEL_NOTE = (
     "Outside the theorems (numerical exercise only): convergence of ADMM / LinearizedADMM / ProximalADMM / NonLinearPADMM / "
-    "PDHG / AcceleratedPGM iterates to the minimiser from arbitrary starts; Lyapunov descent for N > 1 constraints or "
-    "alpha != 1 (statement kept as C03_admm_lyapunov_stmt, not claimed); adaptive step-size policies (C16); inexact "
+    "PDHG / AcceleratedPGM iterates to the minimiser from arbitrary starts; Lyapunov descent under relaxation alpha != 1; "
+    "adaptive step-size policies (C16); inexact "
     "sub-problem solvers (C10/C14). Trusted: Lean kernel + Mathlib; real-number idealisation; prox maps / operators enter "
     "through contracts (IsProx = argmin for convex functionals; adjoint identity); step maps tied to the code by C11."
 )
@@ -381,13 +381,12 @@ def trajectory_case(ctx, recipe, kkt, xs, rng, K):
                 break
         ctx.count("monotone:fista-t")
     if alg == "admm" and recipe["alpha"] == 1.0:
-        proved = len(recipe["C"]) == 1
         for k in range(1, len(Vs)):
             if Vs[k] > Vs[k - 1] + tol(Vs[k - 1]):
-                bad = {"quantity": "ADMM Lyapunov function" + ("" if proved else " (N>1: numerical only)"), "k": k,
+                bad = {"quantity": "ADMM Lyapunov function (N=%d)" % len(recipe["C"]), "k": k,
                        "before": Vs[k - 1], "after": Vs[k]}
                 break
-        ctx.count("monotone:admm-lyapunov" + ("-N1" if proved else "-N>1-numerical"))
+        ctx.count("monotone:admm-lyapunov-N%d" % len(recipe["C"]))
     # numerical convergence (outside the theorems except PGM): the distance must have dropped substantially
     if bad is None:
         target = 0.05 * d0 + 1e-7
@@ -445,7 +444,7 @@ def correspond(ctx, model):
     for name, c in corpus_cases():
         one(ctx, model, rng, c["recipe"]["alg"], c["recipe"], c["kkt"], c["xstar"], True, "corpus")
         ctx.count(f"corpus:{name}")
-    n = ctx.n(14, 60)
+    n = ctx.n(14, 36)
     for it in range(n):
         for alg in G.ALGS:
             m = None
